@@ -95,10 +95,10 @@ def num_encode(n):
     return bytes(out)
 
 
-def num_decode(v, max_size=4, minimal=False):
+def num_decode(v, max_size=4, minimal=False, ctx=None):
     """CScriptNum(vch, fRequireMinimal, nMaxNumSize): ScriptFail on overflow."""
     v = bytes(v)
-    if len(v) > max_size:
+    if len(v) > max_size and not (ctx is not None and 'NUM_ANYSIZE' in ctx.model):
         raise ScriptFail('script number overflow')
     if minimal and v:
         if (v[-1] & 0x7f) == 0 and (len(v) <= 1 or not (v[-2] & 0x80)):
@@ -246,7 +246,10 @@ class Ctx:
         # `model`: named departures from consensus, used ONLY to attribute an already established disagreement to a
         # mechanism (feature ablation), never to judge: NOLIMITS (no size/count limits), NO_UNEXECUTED_FAIL (disabled
         # opcodes / OP_VERIF only fail when executed), SINGLE_ELSE (only the first OP_ELSE of a level switches, later
-        # ones are ignored), FINAL_BYTEWISE (final check is `top != b''`).
+        # ones are ignored), FINAL_BYTEWISE (final check is `top != b''`), CMS_COUNTS_UNCHECKED (CHECKMULTISIG counts of any
+        # size/sign/relation accepted, a negative count meaning zero items), CMS_DUMMY_OPTIONAL (the extra element is only
+        # popped when present), SIG_RAW64 (a 64-byte r||s string is accepted as a signature), NUM_ANYSIZE (no 4/5-byte
+        # operand limit), CLTV_THRESHOLD_5E7 (locktime type threshold 50,000,000), CLTV_ZERO_TXLOCKTIME_FAILS.
         self.model = frozenset(model)
         self.locktime = locktime
         self.sequence = sequence
@@ -263,6 +266,8 @@ class Ctx:
         # CheckSignatureEncoding: an empty signature is always allowed (it simply fails the check)
         if len(sig) == 0:
             return
+        if 'SIG_RAW64' in self.model and len(sig) == 64:
+            return
         if 'DERSIG' in self.flags and not is_valid_signature_encoding(sig):
             raise ScriptFail('non-canonical DER signature')
 
@@ -276,7 +281,11 @@ class Ctx:
         if not sig:
             return False
         hash_type = sig[-1]
-        rs = parse_der_lax(sig[:-1])
+        if 'SIG_RAW64' in self.model and len(sig) == 64:
+            hash_type = 1
+            rs = (int.from_bytes(sig[:32], 'big'), int.from_bytes(sig[32:], 'big'))
+        else:
+            rs = parse_der_lax(sig[:-1])
         if rs is None:
             return False
         d = self.get_digest(hash_type)
@@ -290,7 +299,10 @@ class Ctx:
         if self.locktime is None or self.sequence is None:
             raise ScriptFail('no transaction context for CLTV')
         tx = self.locktime
-        if not ((tx < LOCKTIME_THRESHOLD and n < LOCKTIME_THRESHOLD) or (tx >= LOCKTIME_THRESHOLD and n >= LOCKTIME_THRESHOLD)):
+        thr = 50000000 if 'CLTV_THRESHOLD_5E7' in self.model else LOCKTIME_THRESHOLD
+        if 'CLTV_ZERO_TXLOCKTIME_FAILS' in self.model and tx == 0:
+            return False
+        if not ((tx < thr and n < thr) or (tx >= thr and n >= thr)):
             return False
         if n > tx:
             return False
@@ -391,7 +403,7 @@ def apply_op(opcode, stack, ctx=None, alt=None, state=None):
         s.append(s[-2])
     elif name in ('OP_PICK', 'OP_ROLL'):
         _need(s, 2)
-        n = num_decode(s[-1])
+        n = num_decode(s[-1], ctx=ctx)
         s.pop()
         if n < 0 or n >= len(s):
             raise ScriptFail('invalid stack operation')
@@ -511,8 +523,11 @@ def apply_op(opcode, stack, ctx=None, alt=None, state=None):
     elif name in ('OP_CHECKMULTISIG', 'OP_CHECKMULTISIGVERIFY'):
         i = 1
         _need(s, i)
-        nkeys = num_decode(s[-i])
-        if nkeys < 0 or (nkeys > MAX_PUBKEYS and 'NOLIMITS' not in ctx.model):
+        lax = 'CMS_COUNTS_UNCHECKED' in ctx.model
+        nkeys = num_decode(s[-i], max_size=10 ** 6 if lax else 4)
+        if lax:
+            nkeys = max(nkeys, 0)
+        elif nkeys < 0 or (nkeys > MAX_PUBKEYS and 'NOLIMITS' not in ctx.model):
             raise ScriptFail('pubkey count')
         if state is not None and 'NOLIMITS' not in ctx.model:
             state['ops'] = state.get('ops', 0) + nkeys
@@ -522,14 +537,16 @@ def apply_op(opcode, stack, ctx=None, alt=None, state=None):
         ikey = i
         i += nkeys
         _need(s, i)
-        nsigs = num_decode(s[-i])
-        if nsigs < 0 or nsigs > nkeys:
+        nsigs = num_decode(s[-i], max_size=10 ** 6 if lax else 4)
+        if lax:
+            nsigs = max(nsigs, 0)
+        elif nsigs < 0 or nsigs > nkeys:
             raise ScriptFail('sig count')
         i += 1
         isig = i
         i += nsigs
-        _need(s, i)
-        ok = True
+        _need(s, i - 1 if 'CMS_DUMMY_OPTIONAL' in ctx.model else i)
+        ok = not (lax and nsigs > nkeys)
         while ok and nsigs > 0:
             sig = bytes(s[-isig])
             pub = bytes(s[-ikey])
@@ -544,10 +561,13 @@ def apply_op(opcode, stack, ctx=None, alt=None, state=None):
         while i > 1:
             i -= 1
             s.pop()
-        _need(s, 1)
-        if 'NULLDUMMY' in ctx.flags and len(s[-1]):
-            raise ScriptFail('dummy CHECKMULTISIG argument must be zero')
-        s.pop()
+        if 'CMS_DUMMY_OPTIONAL' in ctx.model and not s:
+            pass
+        else:
+            _need(s, 1)
+            if 'NULLDUMMY' in ctx.flags and len(s[-1]):
+                raise ScriptFail('dummy CHECKMULTISIG argument must be zero')
+            s.pop()
         s.append(_bool(ok))
         if name == 'OP_CHECKMULTISIGVERIFY':
             if not ok:
@@ -557,7 +577,7 @@ def apply_op(opcode, stack, ctx=None, alt=None, state=None):
         if 'CLTV' not in ctx.flags:
             return s
         _need(s, 1)
-        n = num_decode(s[-1], 5)
+        n = num_decode(s[-1], 5, ctx=ctx)
         if n < 0:
             raise ScriptFail('negative locktime')
         if not ctx.check_locktime(n):
@@ -590,7 +610,7 @@ def step(opcode, stack, ctx=None):
 
 
 # ------------------------------------------------------------------ conditionals on a command list
-def split_conditional(rest, cond):
+def split_conditional(rest, cond, single_else=False):
     """Consensus view of `OP_IF rest...` once the condition is known.
 
     -> (found, selected, tail, poisoned): `found` whether a matching OP_ENDIF exists; `selected` the commands of the
@@ -609,7 +629,8 @@ def split_conditional(rest, cond):
                     return True, selected, list(rest[i + 1:]), poisoned
                 depth -= 1
             elif c == OP['OP_ELSE'] and depth == 0:
-                execute = not execute
+                # single_else is an attribution model: only the first OP_ELSE switches, later ones are dropped
+                execute = (not bool(cond)) if single_else else (not execute)
                 continue
         if execute:
             selected.append(c)
@@ -622,12 +643,13 @@ def split_conditional(rest, cond):
 
 # ------------------------------------------------------------------ whole scripts
 class Result:
-    def __init__(self, ok, stack, reason='', nsteps=0, pos=None):
+    def __init__(self, ok, stack, reason='', nsteps=0, pos=None, vf=None):
         self.ok = ok
         self.stack = stack
         self.reason = reason
         self.nsteps = nsteps
         self.pos = pos
+        self.vf = vf        # conditional execution flags still open when evaluation stopped
 
     def __repr__(self):
         return 'Result(ok=%r, stack=%r, reason=%r)' % (self.ok, [x.hex() for x in (self.stack or [])], self.reason)
@@ -725,8 +747,8 @@ def eval_script(cmds, ctx=None, hook=None, trace=None, stack=None):
         if vf:
             raise ScriptFail('unbalanced conditional')
     except ScriptFail as e:
-        return Result(False, s, e.reason, j, pos)
-    return Result(True, s, '', j, None)
+        return Result(False, s, e.reason, j, pos, list(vf))
+    return Result(True, s, '', j, None, [])
 
 
 def verify(cmds, ctx=None, hook=None, trace=None):
